@@ -214,42 +214,6 @@ def statsRequestClasses : List (Nat × String) :=
    (3, "ofp_table_stats_request"), (4, "ofp_port_stats_request"), (5, "ofp_queue_stats_request"),
    (65535, "ofp_vendor_stats_generic")]
 
-/-- what each handler sends, as the model assumes it (compared with the translator's reading of the source) -/
-def handlerSummary : List (String × List String × List String × Nat) :=
-  [("_flow_mod_add", [], ["OFPET_FLOW_MOD_FAILED/OFPFMFC_ALL_TABLES_FULL/ofp=req",
-      "OFPET_FLOW_MOD_FAILED/OFPFMFC_ALL_TABLES_FULL/ofp=req",
-      "OFPET_FLOW_MOD_FAILED/OFPFMFC_BAD_EMERG_TIMEOUT/ofp=req",
-      "OFPET_FLOW_MOD_FAILED/OFPFMFC_EPERM/ofp=req",
-      "OFPET_FLOW_MOD_FAILED/OFPFMFC_OVERLAP/ofp=req"], 0),
-   ("_flow_mod_delete", [], [], 0),
-   ("_flow_mod_delete_strict", [], [], 0),
-   ("_flow_mod_modify", [], [], 0),
-   ("_flow_mod_modify_strict", [], [], 0),
-   ("_rx_barrier_request", ["ofp_barrier_reply(xid=req.xid)"], [], 1),
-   ("_rx_echo_reply", [], [], 0),
-   ("_rx_echo_request", ["ofp_echo_reply(xid=req.xid)"], [], 1),
-   ("_rx_features_request", ["ofp_features_reply(xid=req.xid)"], [], 1),
-   ("_rx_flow_mod", [], ["OFPET_FLOW_MOD_FAILED/OFPFMFC_BAD_COMMAND/ofp=req"], 0),
-   ("_rx_get_config_request", ["ofp_get_config_reply(xid=req.xid)"], [], 1),
-   ("_rx_hello", ["call:self.send_hello"], [], 0),
-   ("_rx_packet_out", [], [], 0),
-   ("_rx_port_mod", [], ["OFPET_PORT_MOD_FAILED/OFPPMFC_BAD_HW_ADDR/ofp=req",
-      "OFPET_PORT_MOD_FAILED/OFPPMFC_BAD_PORT/ofp=req"], 0),
-   ("_rx_queue_get_config_request", ["ofp_queue_get_config_reply(xid=req.xid)"],
-      ["OFPET_QUEUE_OP_FAILED/OFPQOFC_BAD_PORT/ofp=req"], 1),
-   ("_rx_set_config", [], [], 0),
-   ("_rx_stats_request", ["ofp_stats_reply(xid=req.xid)"], ["OFPET_BAD_REQUEST/OFPBRC_BAD_STAT/ofp=req"], 1),
-   ("_rx_vendor", [], ["OFPET_BAD_REQUEST/OFPBRC_BAD_VENDOR/ofp=req"], 0),
-   ("_stats_aggregate", ["return:ofp_aggregate_stats", "return:self.table.aggregate_stats"], [], 0),
-   ("_stats_desc", ["return:ofp_desc_stats", "return:ofp_desc_stats"], [], 0),
-   ("_stats_flow", ["return:[]", "return:self.table.flow_stats"], [], 0),
-   ("_stats_port", ["return:[]", "return:list", "return:self.port_stats[req.port_no]"], [], 0),
-   ("_stats_queue", ["return:None", "return:[]"], ["OFPET_QUEUE_OP_FAILED/OFPQOFC_BAD_PORT/ofp=req",
-      "OFPET_QUEUE_OP_FAILED/OFPQOFC_BAD_QUEUE/ofp=req"], 0),
-   ("_stats_table", ["return:r"], [], 0),
-   ("send_error", ["ofp_error(xid=-)", "xid:=0", "xid:=ofp.xid"], [], 1),
-   ("send_hello", ["ofp_hello(xid=0)"], [], 1)]
-
 inductive StatsBody
   | desc
   | flows (l : List Flow)
